@@ -814,3 +814,41 @@ class new_blockdim__proof:
             "one-entry-per-key": S.slen(result) == n,
             "entry-is-piece-length": S.Implies(S.And(0 <= t, t < n), S.at(result, t) == S.nsel(piece, S.at(lengths, kt))),
         }
+
+
+@contract(f"{BASIC}::_tight_stop", props=["C13", "C02"])
+class tight_stop:
+    """the stop of a normalised slice moved to just past its last selected position: the same positions in the same order,
+    still canonical, never a later stop, and -- for a step above 1 on a non-empty selection -- exactly last + 1 (so that
+    the slice does not reach into a block it selects nothing from)"""
+    params = {"idx": "slice", "dim": "int"}
+    ghosts = {"k": "int"}
+    result = "slice"
+
+    def requires(idx, dim):
+        return S.And(dim >= 0, norm_bounds(idx, dim))
+
+    def ensures(result, idx, dim, k):
+        r = same_selection(result, dim, idx, dim, k)
+        r["step-ok"] = S.step_ok(result)
+        r["canonical"] = norm_bounds(result, dim)
+        a, b, c = S.parts(idx)
+        ra, rb, rc = S.parts(result)
+        n = S.nsel(idx, dim)
+        moved = S.And(S.Not(S.is_none(c)), S.val(c, 1) > 1, S.Not(S.is_none(a)), S.Not(S.is_none(b)), n > 0)
+        r["stop-is-last-plus-one"] = S.Implies(moved, S.And(S.Not(S.is_none(rb)), S.val(rb) == S.sel(idx, dim, n - 1) + 1))
+        r["stop-not-later"] = S.Implies(moved, S.val(rb) <= S.val(b))
+        r["untouched-otherwise"] = S.Implies(S.Not(moved), S.And(S.opt_eq(ra, a), S.opt_eq(rb, b), S.opt_eq(rc, c)))
+        return r
+
+    def ghost_domain(idx, dim):
+        return {"k": range(0, dim + 1)}
+
+    def domain(tier, rng):
+        from dask_array.slicing._utils import normalize_slice
+        for dim in range(0, 8 if tier == "quick" else 13):
+            for s in small_slices(tier):
+                try:
+                    yield {"idx": normalize_slice(s, dim), "dim": dim}
+                except Exception:
+                    pass
